@@ -124,7 +124,10 @@ class ClassInfo:
         self.node = node
         self.name = node.name
         self.methods = {}  # name -> FuncInfo
+        self.setters = {}  # property name -> FuncInfo of its @name.setter
         self.attrs = {}  # class-level assignments name -> value node
+        self.fields = []  # annotated class-level names in order: (name, default value node | None) - dataclass / NamedTuple fields
+        self.decorators = [ast.unparse(d) for d in node.decorator_list]
         self.base_exprs = list(node.bases)
         self.bases = []  # resolved ClassInfo | str (external)
         self._mro = None
@@ -276,7 +279,15 @@ class Project:
                 m.functions[q] = fi
                 child._func = fi  # type: ignore[attr-defined]
                 if isinstance(node, ast.ClassDef) and cls is not None:
-                    cls.methods[child.name] = fi
+                    deco = [ast.unparse(d) for d in child.decorator_list]
+                    if f"{child.name}.setter" in deco:
+                        cls.setters[child.name] = fi
+                    elif f"{child.name}.deleter" in deco:
+                        pass
+                    else:
+                        if f"{child.name}.getter" in deco:
+                            fi.is_property = True
+                        cls.methods[child.name] = fi
                 self._index_functions(m, child, q + ".", cls=None, parent=fi)
             elif isinstance(child, ast.ClassDef):
                 ci = m.classes.get(child.name) if node is m.tree else None
@@ -287,8 +298,11 @@ class Project:
                         for t in st.targets:
                             if isinstance(t, ast.Name):
                                 ci.attrs[t.id] = st.value
-                    elif isinstance(st, ast.AnnAssign) and isinstance(st.target, ast.Name) and st.value is not None:
-                        ci.attrs[st.target.id] = st.value
+                    elif isinstance(st, ast.AnnAssign) and isinstance(st.target, ast.Name):
+                        if not any(f_[0] == st.target.id for f_ in ci.fields):
+                            ci.fields.append((st.target.id, st.value))
+                        if st.value is not None:
+                            ci.attrs[st.target.id] = st.value
                 child._class = ci  # type: ignore[attr-defined]
                 self._index_functions(m, child, prefix + child.name + ".", cls=ci, parent=parent)
             elif isinstance(child, ast.Lambda):
